@@ -41,6 +41,7 @@ def fops : FloatOps Float where
   le a b := a ≤ b
   eq a b := a == b
   ofInt i := if i < 0 then (Int64.ofInt i).toFloat else (UInt64.ofNat i.toNat).toFloat
+  ofIntF32 i := if i < 0 then (Int64.ofInt i).toFloat32.toFloat else (UInt64.ofNat i.toNat).toFloat32.toFloat
   toInt f := if f < 0 then f.toInt64.toInt else (f.toUInt64.toNat : Int)
   toF32 f := f.toFloat32.toFloat
 
@@ -86,7 +87,7 @@ def tokenize (s : String) : List String :=
   ((s.replace "(" " ( ").replace ")" " ) ").splitOn " " |>.filter (· ≠ "")
 
 def parseTy : String → Option Ty
-  | "b1" => some (.int 1 false)
+  | "b1" => some .bool
   | "i8" => some (.int 1 true) | "u8" => some (.int 1 false)
   | "i16" => some (.int 2 true) | "u16" => some (.int 2 false)
   | "i32" => some (.int 4 true) | "u32" => some (.int 4 false)
@@ -97,6 +98,7 @@ def parseTy : String → Option Ty
 
 def showTy : Ty → String
   | .int sz sg => (if sg then "i" else "u") ++ toString (sz * 8)
+  | .bool => "b1"
   | .flt sz => "f" ++ toString (sz * 8)
   | .ptr => "ptr"
   | .other => "void"
